@@ -156,6 +156,7 @@ class Operand:
         self.inner = inner
         self.integ = ''
         self.tkey = ''
+        self.node = None
 
     def names(self):
         """lower-cased qualifier tuples that denote this operand (specification reading)"""
@@ -168,7 +169,7 @@ class Operand:
         if self.alias is not None:
             return self.alias[-1]
         ps = list(self.parts)
-        if len(ps) > 1 and ps[0] in dbs:
+        if len(ps) > 1 and ps[0].lower() in dbs:
             ps = ps[1:]
         return '.'.join(ps)
 
@@ -187,18 +188,36 @@ class Operand:
         return ' '.join(t)
 
 
+def catalog_models(cat):
+    """independent reading of the catalog: [(project lower, model name lower, metadata)], for both forms of
+    predictor_metadata; a model without integration_name lives in predictor_namespace (default mindsdb)"""
+    pns = (cat.get('predictor_namespace') or 'mindsdb').lower()
+    meta = cat.get('predictor_metadata') or []
+    items = meta if isinstance(meta, list) else [dict(v, name=k) for k, v in meta.items()]
+    return [(str(m.get('integration_name', pns)).lower(), str(m['name']).lower(), m) for m in items]
+
+
+def expected_dbs(cat):
+    """independent reading of the catalog: every name that can qualify a table or a model, lower-cased — data
+    integrations, projects (listed in `integrations`, or known only as the project of a model), mindsdb"""
+    names = {'mindsdb'}
+    for it in cat.get('integrations') or []:
+        names.add((it['name'] if isinstance(it, dict) else it).lower())
+    for project, _, _ in catalog_models(cat):
+        names.add(project)
+    return names
+
+
 def model_info(ident, cat):
-    """independent reading of the catalog: is this identifier a model reference? -> metadata or None"""
+    """independent reading of the catalog: is this identifier a model reference? -> metadata or None
+    (names compare case-insensitively in every part)"""
     parts = list(ident.parts)
     if len(parts) > 1 and parts[-1].isdigit():
         parts = parts[:-1]
     name = parts[-1].lower()
-    ns = parts[-2].lower() if len(parts) > 1 else (cat.get('default_namespace') or None)
-    meta = cat['predictor_metadata']
-    items = meta if isinstance(meta, list) else [dict(v, name=k) for k, v in meta.items()]
-    for m in items:
-        mns = m.get('integration_name', 'mindsdb').lower()
-        if m['name'].lower() == name and (ns is not None and ns.lower() == mns):
+    ns = parts[-2].lower() if len(parts) > 1 else ((cat.get('default_namespace') or '').lower() or None)
+    for project, mname, m in catalog_models(cat):
+        if mname == name and ns is not None and ns == project:
             return m
     return None
 
@@ -231,14 +250,16 @@ def operands_of(query, cat):
                 if isinstance(tp, list):
                     tp = tp[0] if tp else None
                 ops.append(Operand('mod', list(node.parts), alias, jtype, on, tp))
+                ops[-1].node = node
             else:
                 o = Operand('tab', list(node.parts), alias, jtype, on, None)
-                dbs = databases_of(cat)
-                o.integ = (node.parts[0] if len(node.parts) > 1 and node.parts[0] in dbs
+                dbs = expected_dbs(cat)
+                o.integ = (node.parts[0] if len(node.parts) > 1 and node.parts[0].lower() in dbs
                            else (cat.get('default_namespace') or '')).lower()
                 # `item.table` (the integration popped when it is a known database) as Identifier equality sees it
-                tp = list(node.parts[1:]) if len(node.parts) > 0 and node.parts[0] in dbs else list(node.parts)
+                tp = list(node.parts[1:]) if len(node.parts) > 1 and node.parts[0].lower() in dbs else list(node.parts)
                 o.tkey = '.'.join(tp) + '|' + ('.'.join(alias) if alias is not None else '')
+                o.node = node
                 ops.append(o)
         elif isinstance(node, ast.Select):
             ops.append(Operand('sub', ['t_sub'], alias, jtype, on, None, inner_steps(node)))
@@ -292,9 +313,51 @@ def info_line(info):
     return ' '.join(t)
 
 
-def model_line(ops, where, using, info):
+def catalog_line(cat):
+    """the catalog as written (the Lean model lower-cases)"""
+    ints, projs = [], []
+    for it in cat.get('integrations') or []:
+        if isinstance(it, dict):
+            (ints if it['type'] == 'data' else projs).append(it['name'])
+        else:
+            ints.append(it)
+    meta = cat.get('predictor_metadata') or []
+    items = meta if isinstance(meta, list) else [dict(v, name=k) for k, v in meta.items()]
+    t = [str(len(ints))] + [enc(x) for x in ints] + [str(len(projs))] + [enc(x) for x in projs] + [str(len(items))]
+    for m in items:
+        if '.' in m['name']:
+            raise SkipShape('dotted-legacy-model-name')
+        t += [enc(m['integration_name']) if 'integration_name' in m else '-', enc(m['name'])]
+    t.append(enc(cat['predictor_namespace']) if cat.get('predictor_namespace') else '-')
+    t.append(enc(cat['default_namespace']) if cat.get('default_namespace') else '-')
+    return ' '.join(t)
+
+
+_PLANNERS = {}
+
+
+def real_route(ops_nodes, cat):
+    """what the real planner says about every operand: model? (get_predictor) routable? (a known database qualifies it,
+    or there is a default namespace)"""
+    from mindsdb_sql.planner.query_planner import QueryPlanner
+    key = json.dumps(cat, sort_keys=True, default=str)
+    if key not in _PLANNERS:
+        _PLANNERS[key] = QueryPlanner(**copy.deepcopy(cat))
+    p = _PLANNERS[key]
+    out = []
+    for kind, node in ops_nodes:
+        if kind == 'sub':
+            out.append('s')
+            continue
+        m = p.get_predictor(node) is not None
+        r = (len(node.parts) > 1 and node.parts[0].lower() in p.databases) or p.default_namespace is not None
+        out.append(('m' if m else 't') + ('1' if r else '0'))
+    return 'route(%s)' % ','.join(out)
+
+
+def model_line(ops, where, using, info, cat):
     return ' '.join([str(len(ops))] + [o.line() for o in ops] +
-                    ['-' if where is None else show_e(where), using_line(using), info_line(info)])
+                    ['-' if where is None else show_e(where), using_line(using), info_line(info), catalog_line(cat)])
 
 
 # ----------------------------------------------------------------------------- real plan -> canonical
@@ -392,6 +455,9 @@ class PlanView:
                 return dict(kind='nested', k=idx)
             if idx is not None and idx in sub_inputs:
                 return dict(kind='inner', t=sub_inputs[idx])
+            if isinstance(s, S.FetchDataframeStep) and not hasattr(getattr(s.query, 'from_table', None), 'parts'):
+                # e.g. the whole join was sent to one integration
+                return dict(kind='other', name='FetchDataframeStep(%s)' % type(getattr(s.query, 'from_table', None)).__name__)
             if isinstance(s, S.FetchDataframeStep):
                 t = Keys('tab').get(ident_key(s.query.from_table), -1)
                 qq = s.query
@@ -489,6 +555,13 @@ CAT_NAMES = [
          tables=['int1.t1', 'int2.t2', 'int1.T3', 'int2.tab4', 't5']),
     dict(models=['mindsdb.Pred', 'proj.pred2', 'mindsdb.pred.2'],
          tables=['int1.t1', 'int2.t2', 'int1.T3', 'int2.tab4', 't5']),
+    # catalog names in mixed case, query spellings in another case; projects known only through predictor_metadata
+    dict(models=['MLProject.Pred', 'mlproject.pred', 'MLPROJECT.PRED.3', 'Proj.pred2', 'proj.Pred2', 'PROJ.pred2.7'],
+         tables=['Int1.t1', 'int1.T3', 'INT2.t2', 'int2.tab4', 't5']),
+    dict(models=['mlproject.Pred', 'MLProject.pred.2', 'proj.pred2', 'PROJ.Pred2', 'Proj.PRED2'],
+         tables=['int1.t1', 'INT1.T3', 'Int2.t2', 'int2.tab4']),
+    dict(models=['myns.pred', 'MyNS.Pred', 'MYNS.pred.4', 'pred', 'Other.pred2', 'OTHER.PRED2'],
+         tables=['int1.t1', 'Int1.T3', 'int2.t2', 'INT2.tab4']),
 ]
 
 CATALOGS = [
@@ -507,6 +580,19 @@ CATALOGS = [
          predictor_metadata=[{'name': 'Pred'},
                              {'name': 'pred2', 'integration_name': 'proj', 'to_predict': ['Y']}],
          default_namespace='int1'),
+    dict(integrations=['Int1', {'name': 'INT2', 'type': 'data'}],
+         predictor_metadata=[{'name': 'Pred', 'integration_name': 'MLProject', 'to_predict': ['Y']},
+                             {'name': 'pred2', 'integration_name': 'Proj'}],
+         default_namespace='Int1'),
+    dict(integrations=[{'name': 'Int1', 'type': 'data'}, 'INT2', {'name': 'Proj', 'type': 'project'}],
+         predictor_metadata={'Pred': {'integration_name': 'MLProject', 'to_predict': 'y'},
+                             'Pred2': {'integration_name': 'Proj', 'to_predict': ['Out']}},
+         default_namespace=None),
+    dict(integrations=['int1', 'Int2'],
+         predictor_namespace='MyNS',
+         predictor_metadata=[{'name': 'Pred', 'to_predict': 'Y'},
+                             {'name': 'PRED2', 'integration_name': 'Other'}],
+         default_namespace='MyNS'),
 ]
 
 
@@ -548,17 +634,23 @@ def run_real(sql, cat):
         return dict(skip='shape:' + str(e))
     except InnerPlanError as e:
         return dict(skip='inner-plan:' + str(e))
-    res = dict(ops=ops, where=where, using=using, info=info, line=model_line(ops, where, using, info), sql=sql,
+    res = dict(ops=ops, where=where, using=using, info=info, line=model_line(ops, where, using, info, cat), sql=sql,
+               route=real_route([(o.kind, o.node) for o in ops], cat),
                aggregates=deep_aggregates(q))
     if not any(o.kind == 'mod' for o in ops):
         return dict(skip='no-model')
     n_nested = count_sel(where) if where is not None else 0
-    dbs = databases_of(cat)
+    dbs = expected_dbs(cat)
+    # independent reading: can every operand be routed?  (a qualifier that is a known name, or a default namespace)
+    routable = all(o.kind == 'sub' or cat.get('default_namespace') or
+                   (len(o.parts) > 1 and o.parts[0].lower() in dbs) for o in ops)
     try:
         plan = plan_query(q, **copy.deepcopy(cat))
     except PlanningException as e:
         if str(e).startswith('Integration not found'):
-            return dict(skip='routing')
+            if not routable:
+                return dict(skip='routing')
+            res['rejected'] = str(e)
         res['out'] = 'exc:PlanningException'
         return res
     except NotImplementedError:
@@ -856,6 +948,16 @@ class Gen:
         return sql
 
 
+# (catalog index, query): catalog names in mixed case, query spellings in another case, projects known only via metadata
+SEEDS_CAT = [
+    (4, "select * from Int1.t1 a join MLProject.Pred m where m.mc1 = 1 and a.tc1 > 2"),
+    (4, "select * from t5 a join mlproject.pred m on m.mc1 = a.tc1 join PROJ.PRED2 m2 on m2.mc2 = m.Y where m2.mc1 = 1"),
+    (5, "select * from int1.t1 a join mlproject.PRED.3 m where m.mc1 = 1 using M.k = 1"),
+    (5, "select * from INT2.t2 a join proj.pred2 m where m.mc1 = 1 and a.tc1 > 2"),
+    (6, "select * from Int1.T3 a join pred m where m.mc1 = 1"),
+    (6, "select * from int2.t2 a join myns.PRED m join other.Pred2 m2 where m.mc1 = 1 and m2.mc2 = 2"),
+]
+
 SEEDS = [
     "select * from int1.t1 t join mindsdb.pred m where m.mc1 = 1 and t.tc1 > 2",
     "select * from int1.t1 t join mindsdb.pred m where not m.mc1 = 1",
@@ -875,6 +977,8 @@ SEEDS = [
     "select * from int1.t1 t join mindsdb.pred.3 m where m.mc1 = (select max(x) from int2.t9) and t.tc1 in (select x from int2.t9)",
     "select * from (select * from int1.t1 a join int2.t2 b on a.id = b.id where a.q = 1) s join mindsdb.pred m where s.tc1 = 1 and m.mc1 = 2 using partition_size=3",
     "select * from int1.t1 t join (select * from int1.t1 join mindsdb.pred) s on t.id = s.id join proj.pred2 m where t.tc1 in (select a.x from int1.t1 a join int2.t2 b on a.id = b.id) and m.mc1 = (select max(z) from int2.t8)",
+    "select * from int1.t1 t join mindsdb.pred m1 on m1.mc1 = t.tc1 join proj.pred2 m2 on m2.mc2 = m1.y and m2.mc1 = t.tc2 where m1.mc2 = 1 and m2.Out = 2",
+    "select * from int1.t1 t join mindsdb.pred m1 join proj.pred2 m2 on m1.y = m2.mc2 where m2.mc1 = 1",
     "select t.tc1, m.mc1 from int1.t1 t join mindsdb.pred m on m.mc2 = t.tc2 where m.mc1 = 1 limit 3",
     "select t.tc1, m.mc1 from int1.t1 t join mindsdb.pred m where m.mc1 = 1 and t.tc1 > 2 order by t.tc2 desc, t.id limit 3 offset 2",
     "select * from int1.t1 t join mindsdb.pred m where m.mc1 > 1 order by m.mc2 limit 3",
@@ -1265,7 +1369,10 @@ def oracle(res):
             if c[0] == 'B' and c[1] == '=' and c[2][0] == 'C' and c[3][0] == 'C' and c[2][1] and c[3][1]:
                 t1, t2 = resolve(ops, c[2][1]), resolve(ops, c[3][1])
                 for (tm, cm, to, co) in ((t1, c[2], t2, c[3]), (t2, c[3], t1, c[2])):
-                    if tm is not None and to is not None and ops[tm].kind == 'mod' and ops[to].kind != 'mod':
+                    # the other side: a column of the data the model is joined to — a table, a sub-select, or a model
+                    # applied earlier (its output columns are part of that data)
+                    if tm is not None and to is not None and ops[tm].kind == 'mod' and to != tm and \
+                            (ops[to].kind != 'mod' or to < tm):
                         if tm == k:
                             cls = 'on-equality-not-mapped'
                         elif len(ops) == 2 and tm == 0 and k == 1:
